@@ -155,7 +155,8 @@ def flagName : FlagK → String
 
 def cfgJson : Json :=
   Json.mkObj [("compKinds", ofStrs (cfg.node.recKinds .comps)), ("ifaceKinds", ofStrs (cfg.svc.recKinds .ifs)),
-    ("flagVal", Json.mkObj (cfg.flagVal.map fun e => (flagName e.1, Json.num (JsonNumber.fromNat e.2))))]
+    ("flagVal", Json.mkObj (cfg.flagVal.map fun e => (flagName e.1, Json.num (JsonNumber.fromNat e.2)))),
+    ("dictKeyOnly", Json.bool cfg.dictKeyOnly)]
 
 /-! the value classes' own equality (`Model/DiffVal.lean`): `["veq", "L"|"C"|"U", a, b]` → `[a == b, a != b]` as Python evaluates
 them (`a`, `b`: null or an instance: field dictionary as `[[field, value], …]` / decoded JSON value), `["canon", "U", a]` → the
